@@ -1,5 +1,7 @@
 import PhyVerif.Driver.Json
+import PhyVerif.Driver.Rat
 import PhyVerif.Model.C15
+import PhyVerif.Model.C15b
 import PhyVerif.Spec.C15
 namespace PhyVerif.Driver
 open Lean PhyVerif PhyVerif.C15
@@ -26,6 +28,37 @@ def runC15 (op : String) (j : Json) : R Json := do
     match firingCounts sc ids with
     | none => pure (Json.mkObj [("model", Json.null)])
     | some m => pure (Json.mkObj [("model", jList jNats m)])
+  | "ccg_q" =>
+    -- the whole call over exact rationals: float -> sample conversions, loop on the count array, symmetrisation
+    let times ← getRats j "times"; let sc ← getInts j "sc"
+    let ids ← if hasFld j "ids" then some <$> getNats j "ids" else pure none
+    let rate ← fld j "rate" >>= asRat; let bin ← fld j "bin_size" >>= asRat; let window ← fld j "window" >>= asRat
+    let sym ← getBool j "sym"
+    let samples := samplesOf rate times
+    let bs := binsizeOf rate bin; let ws := winsizeBins window bin
+    let idl := idsOr sc ids
+    let specEq := if hasFld j "spec" then
+        Json.bool (correlogramsArr samples sc idl bs ws == some (specCcg samples sc idl bs (halfOf window bin)) &&
+                   correlograms samples sc idl bs (halfOf window bin) == correlogramsArr samples sc idl bs ws)
+      else Json.null
+    pure (Json.mkObj [("model", jOpt j3 (correlogramsQ times sc ids rate bin window sym)),
+                      ("samples", jInts samples), ("binsize", jInt bs), ("winsize", jInt ws),
+                      ("ids", jNats idl), ("model_eq_spec", specEq)])
+  | "firing_q" =>
+    let sc ← getInts j "sc"
+    let ids ← if hasFld j "ids" then some <$> getNats j "ids" else pure none
+    let bin ← fld j "bin_size" >>= asRat
+    let dur ← if hasFld j "duration" then some <$> (fld j "duration" >>= asRat) else pure none
+    pure (Json.mkObj [("model", jOpt jRatMat (firingRate sc ids bin dur))])
+  | "increment" =>
+    let arr ← getNats j "arr"; let idx ← getNats j "idx"
+    pure (Json.mkObj [("model", jOpt jNats (increment arr idx))])
+  | "diff_shifted" =>
+    let arr ← getInts j "arr"; let s ← getNat j "steps"
+    pure (Json.mkObj [("model", jOpt jInts (diffShifted arr s))])
+  | "create" =>
+    let nc ← getNat j "nc"; let ws ← getInt j "winsize"
+    pure (Json.mkObj [("model", j3 (createArray nc ws))])
   | _ => .error s!"C15: unknown op {op}"
 
 end PhyVerif.Driver
